@@ -305,8 +305,8 @@ func gen(g *hx.Gen) {
 	if g.N == 0 {
 		genPick(g)
 	}
-	genScripted(g, g.Count(5000, 150000))
-	n := 150
+	genScripted(g, g.Count(4000, 150000))
+	n := 120
 	if g.Thorough() {
 		n = 3000
 	}
